@@ -21,15 +21,14 @@ pub(super) fn sym_lr() -> Float {
 }
 
 /// C13: update on up to three parameters with the given shapes; the subset holding a gradient is symbolic
-pub(super) fn update_check(d0: &[usize], d1: &[usize], d2: &[usize], rounds: usize) {
+pub(super) fn update_check(d0: &[usize], d1: &[usize], d2: &[usize], rounds: usize, mask: usize, lr: Float) {
     let shapes: [&[usize]; 3] = [d0, d1, d2];
     let count = if d2.is_empty() { if d1.is_empty() { 1 } else { 2 } } else { 3 };
-    let lr = sym_lr();
     let gd = GradientDescent::new(lr);
     let mut params: Vec<Array> = Vec::with_capacity(count);
     let mut k = 0;
     while k < count {
-        let tracked = sym_bool();
+        let tracked = k != 1; // the second parameter starts untracked (frozen-style handle)
         let p = mk(shapes[k], sym_vec(numel(shapes[k]), sym_val));
         params.push(if tracked { p.tracked() } else { p });
         k += 1;
@@ -43,7 +42,8 @@ pub(super) fn update_check(d0: &[usize], d1: &[usize], d2: &[usize], rounds: usi
         let mut olds: Vec<Snap> = Vec::with_capacity(count);
         k = 0;
         while k < count {
-            let h = sym_bool();
+            // which parameters hold a gradient: bit k of `mask` in round 0, the complement afterwards
+            let h = if round == 0 { (mask >> k) & 1 == 1 } else { (mask >> k) & 1 == 0 };
             let gv = sym_vec(numel(shapes[k]), sym_val);
             if h {
                 *params[k].gradient_mut() = Some(mk(shapes[k], gv.clone()));
@@ -217,10 +217,9 @@ pub(super) fn cost_check(dims: &[usize]) {
 /// the cost array; each training iteration returns the loss of the current parameters on the current
 /// batch and moves every parameter by -lr * exact gradient of that loss (closed form for
 /// linear layers + mse), independent of earlier iterations.
-pub(super) fn train_check(batch: usize, n_in: usize, n_out: usize, iters: usize) {
+pub(super) fn train_check(batch: usize, n_in: usize, n_out: usize, iters: usize, lr: Float, phase: u8) {
     let init = sym_init();
     let mut layer = Dense::new(n_in, n_out, &init, None);
-    let lr = sym_lr();
     let gd = GradientDescent::new(lr);
     let mse = cost::mse();
     // shadow copies of the parameters, updated by the oracle
@@ -264,6 +263,11 @@ pub(super) fn train_check(batch: usize, n_in: usize, n_out: usize, iters: usize)
             q += 1;
         }
         assert!(loss == lo, "C14/C15 the iteration returns the loss (sum of the cost array) of the current parameters on the current batch");
+        if phase == 1 {
+            // C15 only: the parameters hold the gradients of this loss; no update
+            it += 1;
+            continue;
+        }
         model.update();
         // exact gradient of the loss: dL/dy = -2 (t - y) / n ; dW[o][k] = sum_r dL/dy[r][o] x[r][k] ; db[o] = sum_r dL/dy[r][o]
         let mut o = 0;
@@ -292,6 +296,10 @@ pub(super) fn train_check(batch: usize, n_in: usize, n_out: usize, iters: usize)
     }
     drop(model);
     let ps = layer.parameters();
+    if phase == 1 {
+        assert!(grad_of(ps[0]).is_some() && grad_of(ps[1]).is_some(), "C15 model backward differentiates the cost down to the parameters");
+        return;
+    }
     let mut q = 0;
     while q < n_out * n_in {
         assert!(ps[0].values()[q] == w[q], "C14 every parameter moved by -learning_rate x exact gradient of the current loss in every iteration");
@@ -307,8 +315,8 @@ pub(super) fn train_check(batch: usize, n_in: usize, n_out: usize, iters: usize)
 }
 
 macro_rules! update_instance {
-    ($name:ident, $unwind:expr, [$($a:expr),*], [$($b:expr),*], [$($c:expr),*], $rounds:expr) => {
-        vk_harness!($name, $unwind, { update_check(&[$($a),*], &[$($b),*], &[$($c),*], $rounds); });
+    ($name:ident, $unwind:expr, [$($a:expr),*], [$($b:expr),*], [$($c:expr),*], $rounds:expr, $mask:expr, $lr:expr) => {
+        vk_harness!($name, $unwind, { update_check(&[$($a),*], &[$($b),*], &[$($c),*], $rounds, $mask, $lr); });
     };
 }
 macro_rules! dense_instance {
@@ -325,7 +333,142 @@ macro_rules! cost_instance {
     ($name:ident, $unwind:expr, [$($d:expr),*]) => { vk_harness!($name, $unwind, { cost_check(&[$($d),*]); }); };
 }
 macro_rules! train_instance {
-    ($name:ident, $unwind:expr, $batch:expr, $nin:expr, $nout:expr, $iters:expr) => {
-        vk_harness!($name, $unwind, { train_check($batch, $nin, $nout, $iters); });
+    ($name:ident, $unwind:expr, $batch:expr, $nin:expr, $nout:expr, $iters:expr, $lr:expr, $phase:expr) => {
+        vk_harness!($name, $unwind, { train_check($batch, $nin, $nout, $iters, $lr, $phase); });
+    };
+}
+
+/// Model::update contract: every layer's parameters, in order, are handed to the optimizer
+/// (each parameter meets its own gradient), nothing else changes.
+pub(super) fn model_update_check(n_layers: usize, lr: Float) {
+    let init = sym_init();
+    let mut l0 = Dense::new(2, 1, &init, None);
+    let mut l1 = Dense::new(1, 2, &init, None);
+    let gd = GradientDescent::new(lr);
+    let mse = cost::mse();
+    let mut olds: Vec<Vec<Float>> = Vec::new();
+    let mut grads: Vec<Vec<Float>> = Vec::new();
+    {
+        let mut ps = l0.parameters();
+        if n_layers == 2 { ps.extend(l1.parameters()); }
+        let mut k = 0;
+        while k < ps.len() {
+            let n = ps[k].values().len();
+            let g = sym_vec(n, sym_val);
+            olds.push(ps[k].values().to_vec());
+            *ps[k].gradient_mut() = Some(mk(&ps[k].dimensions.clone(), g.clone()));
+            grads.push(g);
+            k += 1;
+        }
+    }
+    {
+        let mut model = if n_layers == 2 { Model::new(vec![&mut l0, &mut l1], &gd, &mse) } else { Model::new(vec![&mut l0], &gd, &mse) };
+        model.update();
+    }
+    let mut ps = l0.parameters();
+    if n_layers == 2 { ps.extend(l1.parameters()); }
+    let mut k = 0;
+    while k < ps.len() {
+        let mut i = 0;
+        while i < olds[k].len() {
+            assert!(ps[k].values()[i] == olds[k][i] - lr * grads[k][i], "C14 Model::update steps every parameter of every layer with its own gradient");
+            i += 1;
+        }
+        assert!(grad_of(ps[k]).is_none() && ps[k].is_tracked.get() && node_clean(ps[k]), "C14 parameters are fresh clean leaves after the update");
+        k += 1;
+    }
+}
+macro_rules! model_update_instance {
+    ($name:ident, $unwind:expr, $layers:expr, $lr:expr) => { vk_harness!($name, $unwind, { model_update_check($layers, $lr); }); };
+}
+
+/// C14 (training iterations) with the optimizer applied directly to the layer's parameters: the
+/// three-line plumbing Model::update -> Model::parameters (a flat_map over `dyn Layer`) is NOT
+/// covered (CBMC does not finish on it); everything else of an iteration is the real code.
+pub(super) fn train2_check(batch: usize, n_in: usize, n_out: usize, iters: usize, lr: Float) {
+    let init = sym_init();
+    let mut layer = Dense::new(n_in, n_out, &init, None);
+    let gd = GradientDescent::new(lr);
+    let mse = cost::mse();
+    let (mut w, mut b): (Vec<Float>, Vec<Float>) = {
+        let ps = layer.parameters();
+        (ps[0].values().to_vec(), ps[1].values().to_vec())
+    };
+    let rows = batch;
+    let n = (rows * n_out) as Float;
+    let mut it = 0;
+    while it < iters {
+        let xv = sym_vec(rows * n_in, sym_val);
+        let tv = sym_vec(rows * n_out, sym_val);
+        let loss = {
+            let mut model = Model::new(vec![&mut layer], &gd, &mse);
+            let _y = model.forward(mk(&[batch, n_in], xv.clone()));
+            model.backward(mk(&[batch, n_out], tv.clone()))
+        };
+        gd.update(layer.parameters());
+        // oracle
+        let mut yo: Vec<Float> = Vec::with_capacity(rows * n_out);
+        let mut r = 0;
+        while r < rows {
+            let mut o = 0;
+            while o < n_out {
+                let mut s: Float = 0.0;
+                let mut k = 0;
+                while k < n_in { s = s + xv[r * n_in + k] * w[o * n_in + k]; k += 1; }
+                yo.push(s + b[o]);
+                o += 1;
+            }
+            r += 1;
+        }
+        let mut lo: Float = 0.0;
+        let mut q = 0;
+        while q < rows * n_out {
+            let d = tv[q] - yo[q];
+            lo = lo + (1.0 / n) * (d * d);
+            q += 1;
+        }
+        assert!(loss == lo, "C14 the iteration returns the loss of the current parameters on the current batch");
+        let mut o = 0;
+        while o < n_out {
+            let mut gb: Float = 0.0;
+            let mut r = 0;
+            while r < rows {
+                gb = gb + (-2.0 * (tv[r * n_out + o] - yo[r * n_out + o])) * (1.0 / n);
+                r += 1;
+            }
+            let mut k = 0;
+            while k < n_in {
+                let mut gw: Float = 0.0;
+                let mut r = 0;
+                while r < rows {
+                    gw = gw + ((-2.0 * (tv[r * n_out + o] - yo[r * n_out + o])) * (1.0 / n)) * xv[r * n_in + k];
+                    r += 1;
+                }
+                w[o * n_in + k] = w[o * n_in + k] - lr * gw;
+                k += 1;
+            }
+            b[o] = b[o] - lr * gb;
+            o += 1;
+        }
+        let ps = layer.parameters();
+        q = 0;
+        while q < n_out * n_in {
+            assert!(ps[0].values()[q] == w[q], "C14 every parameter moves by -learning_rate x exact gradient of the current loss, whatever happened before");
+            q += 1;
+        }
+        q = 0;
+        while q < n_out {
+            assert!(ps[1].values()[q] == b[q], "C14 bias moves by -learning_rate x exact gradient of the current loss");
+            q += 1;
+        }
+        assert!(grad_of(ps[0]).is_none() && grad_of(ps[1]).is_none() && node_clean(ps[0]) && node_clean(ps[1])
+                && ps[0].children.is_empty() && ps[0].is_tracked.get() && ps[1].is_tracked.get(),
+                "C14 no gradient, graph or count leaks into the next iteration");
+        it += 1;
+    }
+}
+macro_rules! train2_instance {
+    ($name:ident, $unwind:expr, $batch:expr, $nin:expr, $nout:expr, $iters:expr, $lr:expr) => {
+        vk_harness!($name, $unwind, { train2_check($batch, $nin, $nout, $iters, $lr); });
     };
 }
